@@ -3,6 +3,8 @@ package c04
 
 import (
 	"fmt"
+	"net/http"
+	"net/http/httptest"
 	"strings"
 	"testing"
 
@@ -177,3 +179,85 @@ func checkRound(t *rapid.T, w *chain.World, r *rux.Router, pm *chain.PModel, pro
 }
 
 func TestProp(t *testing.T) { rapid.Check(t, prop) }
+
+// propAdaptedMiddleware: net/http handlers adapted with WrapHTTPHandler / WrapHTTPHandlerFunc (or rux's aliases) sit in
+// a chain like any middleware.  Whatever such a handler does to the response - an error status, http.Error,
+// http.NotFound, a redirect, nothing at all - the chain goes on in order: the adapter passes on, it does not decide.
+func propAdaptedMiddleware(t *rapid.T) {
+	ev.Case()
+	r := rux.New()
+	var trace []string
+	mw := func(n string) rux.HandlerFunc {
+		return func(c *rux.Context) { trace = append(trace, "enter "+n); c.Next(); trace = append(trace, "leave "+n) }
+	}
+	n := rapid.IntRange(1, 4).Draw(t, "chainLength")
+	at := rapid.IntRange(0, n-1).Draw(t, "adaptedAt")
+	what := rapid.SampledFrom([]string{"status-404", "status-500", "status-201", "http.Error-403", "http.NotFound", "redirect", "nothing", "body-only", "inner-router-404"}).Draw(t, "adaptedDoes")
+	std := http.HandlerFunc(func(w http.ResponseWriter, req *http.Request) {
+		trace = append(trace, "adapted")
+		switch what {
+		case "status-404":
+			w.WriteHeader(404)
+		case "status-500":
+			w.WriteHeader(500)
+		case "status-201":
+			w.WriteHeader(201)
+		case "http.Error-403":
+			http.Error(w, "no", 403)
+		case "http.NotFound":
+			http.NotFound(w, req)
+		case "redirect":
+			http.Redirect(w, req, "/elsewhere", 302)
+		case "body-only":
+			_, _ = w.Write([]byte("x"))
+		case "inner-router-404":
+			rux.New().ServeHTTP(w, req)
+		}
+	})
+	var adapted rux.HandlerFunc
+	switch rapid.IntRange(0, 2).Draw(t, "adapter") {
+	case 0:
+		adapted = rux.WrapHTTPHandler(std)
+	case 1:
+		adapted = rux.WrapHTTPHandlerFunc(std)
+	default:
+		adapted = rux.WrapH(std)
+	}
+	var want []string
+	var mws []rux.HandlerFunc
+	for i := 0; i < n; i++ {
+		if i == at {
+			mws = append(mws, adapted)
+			want = append(want, "adapted")
+		} else {
+			mws = append(mws, mw(fmt.Sprint(i)))
+			want = append(want, fmt.Sprintf("enter %d", i))
+		}
+	}
+	want = append(want, "main")
+	for i := n - 1; i >= 0; i-- {
+		if i != at {
+			want = append(want, fmt.Sprintf("leave %d", i))
+		}
+	}
+	place := rapid.IntRange(0, 2).Draw(t, "where")
+	main := func(c *rux.Context) { trace = append(trace, "main") }
+	switch place {
+	case 0:
+		r.Use(mws...)
+		r.GET("/x", main)
+	case 1:
+		r.Group("/", func() { r.GET("/x", main) }, mws...)
+	default:
+		r.GET("/x", main, mws...)
+	}
+	r.ServeHTTP(httptest.NewRecorder(), httptest.NewRequest("GET", "/x", nil))
+	ev.Eval()
+	if strings.Join(trace, ",") != strings.Join(want, ",") {
+		t.Fatalf("chain of %d with an adapted net/http handler (%s) at %d, placed %d: ran %v, want %v", n, what, at, place, trace, want)
+	}
+	ev.Class("adapted-net/http-middleware:" + what)
+	ev.NonTrivial(fmt.Sprint(n, at, what, place), func() string { return fmt.Sprintf("n=%d at=%d %s place=%d", n, at, what, place) })
+}
+
+func TestPropAdaptedMiddleware(t *testing.T) { rapid.Check(t, propAdaptedMiddleware) }
